@@ -460,3 +460,9 @@ MUTANTS += [
          old="        n_to_select_from = X.shape[0]\n\n        if self.full_fraction is None:",
          new="        n_to_select_from = X.shape[0]\n        self.vlocation_of_idx = np.full(n_to_select_from, 1)\n        self.dSL_ = np.zeros(n_to_select, float)\n\n        if self.full_fraction is None:"),
 ]
+
+MUTANTS += [
+    dict(name="revert_fix_first_score_always_recorded", prop="C08", file=SEL, count=1,
+         old="        if self.first_score_ is None:\n            # recorded whether or not a threshold is set: a relative threshold that\n            # is switched on before a warm start refers to the first selection too\n            self.first_score_ = scores[max_score_idx]\n\n        if self.score_threshold is not None:\n",
+         new="        if self.score_threshold is not None:\n            if self.first_score_ is None:\n                self.first_score_ = scores[max_score_idx]\n"),
+]
